@@ -9,7 +9,7 @@ from __future__ import annotations
 
 from typing import Any, Callable
 
-from exabgp.protocol.family import SAFI
+from exabgp.protocol.family import AFI, SAFI
 from exabgp.bgp.message.update.nlri.qualifier import RouteDistinguisher
 
 from exabgp.configuration.core import Section
@@ -100,6 +100,9 @@ class ParseFlowRoute(Section):
         pass
 
     def pre(self) -> bool:
+        # the components check the family against tokeniser.afi, which the static route parser sets and nothing
+        # reset: an IPv4 rule with dscp / fragment was refused after any IPv6 route had been parsed (and the reverse)
+        self.parser.tokeniser.afi = AFI.undefined
         self.scope.append_route(flow())
         return True
 
